@@ -1,12 +1,12 @@
 (* Model.ExprFront — Gallina port of the front half of the `:=` pipeline
-   (src/jmc/compile/expression_eval.py):
-     tokens_to_tokens      (127-211)  unary minus, parentheses flattening
-     expression_to_tree    (214-275)  shunting-yard with CustomOrder; Expression.__post_init__ (113-124)
-     search_for_output_in_tree (461-507)
-     tree_to_operations    (301-453)  temporaries, can_inject, can_inject_iop, renumbering
-   Quirks are kept; Python object identity is modelled explicitly: a TemporaryVariable object is
-   its creation index (NTemp i), the final renaming is a map on indices; Operator objects that are
-   mutated (`op.content = output_operation`) are never shared, so the mutation is a list update.
+   (src/jmc/compile/expression_eval.py, with the C02 repairs fixes/C02-01 .. C02-07 applied):
+     tokens_to_tokens      unary minus (a prefix operator token), parentheses flattening
+     expression_to_tree    shunting-yard with CustomOrder (only operators that bind at least as
+                           tightly as the incoming one are reduced); Expression.__post_init__
+     search_for_output_in_tree
+     tree_to_operations    temporaries, can_inject, renumbering, fold_constants
+   Python object identity is modelled explicitly: a TemporaryVariable object is its creation
+   index (NTemp i), the final renaming is a map on indices.
    Not modelled: `{command}` operands (CommandNumber), `:`/`::`/`[...]` tokens, float literals. *)
 From Coq Require Import ZArith String List Bool.
 From JMCV Require Import Base.Int32 Base.Dec MC.Syntax Model.Names Model.Expr Model.ExprSpec.
@@ -18,6 +18,7 @@ Inductive ftok :=
 | FNum (z : Z)                  (* KEYWORD, is_float *)
 | FVar (s : score)              (* KEYWORD `$v` / `obj:sel`, already resolved to (holder, objective) *)
 | FOp (o : opc)                 (* OPERATOR + - * / % ** *)
+| FNeg                          (* OPERATOR "-1*" (NEGATION_STRING): what a unary minus before a variable / parenthesis becomes *)
 | FOpen | FClose                (* OPERATOR "(" / ")" *)
 | FBad.                         (* KEYWORD that expression_to_tree rejects ("Unrecognized expression token") *)
 
@@ -25,17 +26,15 @@ Definition is_keyword (t : ftok) : bool :=
   match t with FNum _ | FVar _ | FBad => true | _ => false end.
 (* return_tokens[-1].token_type == OPERATOR and return_tokens[-1].string != ")" *)
 Definition is_open_operator (t : ftok) : bool :=
-  match t with FOp _ | FOpen => true | _ => false end.
-Definition tight_before (rest : list ftok) : bool :=
-  match rest with FOp (PDiv | PMod | PPow) :: _ => true | _ => false end.
+  match t with FOp _ | FNeg | FOpen => true | _ => false end.
 
 (* state of one call: return_tokens (REVERSED: head = return_tokens[-1]) and is_hanging_negative_sign *)
 Definition tt_state := (list ftok * bool)%type.
 
-(* replace the hanging "-" by  -1 *  (lines 160-165 / 192-196) *)
+(* replace the hanging "-" by the negation operator token *)
 Definition neg_to_mul (rt : list ftok) : M (list ftok) :=
   match rt with
-  | _ :: rest => tell_if (tight_before rest) T_neg_after_tight ;;; ret (FOp PMul :: FNum (-1) :: rest)
+  | _ :: rest => ret (FNeg :: rest)
   | [] => crash "IndexError"
   end.
 
@@ -67,10 +66,7 @@ Section TTT.
               | KNum z =>
                   (* is_number: merge "-" and the digits into one KEYWORD *)
                   match last with
-                  | FOp PSub =>
-                      (* "-0" stays a distinct string in Python ("-0**0" is -1): not representable here *)
-                      if z =? 0 then tell T_fold_pow_negbase ;;; unmodelled "the literal -0"
-                      else ret (FNum (- z) :: rest, false)
+                  | FOp PSub => ret (FNum (- z) :: rest, false)     (* "-0" is read back as 0 by int() / float() *)
                   | _ => unmodelled "sign merged with a non-minus operator"
                   end
               | _ => rt1 <- neg_to_mul rt ;; ret (this :: rt1, false)
@@ -108,33 +104,36 @@ Definition mk_expr (o : opc) (l r : num) : num :=
   if is_reflective o && negb (is_expr l) && is_expr r then NExpr o o r l
   else if is_reflective o && is_const l && negb (is_const r) then NExpr o o r l
   else if opc_eqb o PSub && is_expr l && is_expr r
-       then NExpr o PAdd (NExpr PMul PMul r (NConst (-1))) l
+       then NExpr PAdd PAdd (NExpr PMul PMul r (NConst (-1))) l
   else NExpr o o l r.
 
 (* ------------------------------------------------------------------ expression_to_tree *)
-Inductive sitem := SOp (o : opc) | SBracket.
+(* operator_stack entries: Operator, Negation (an Operator "*" whose get_order is 25), OPEN_BRACKET *)
+Inductive sitem := SOp (o : opc) | SNegate | SBracket.
 
-(* operator.get_order() < operator_stack[-1].get_order(), the new operator being textually after
-   everything on the stack (so `self.line > other.line` / `self.col > other.col` hold) *)
+Definition item_order (s : sitem) : Z :=
+  match s with SOp o => op_order o | SNegate => 25 | SBracket => 0 end.
+Definition item_opc (s : sitem) : opc := match s with SOp o => o | _ => PMul end.
+
+(* incoming.get_order() < operator.get_order()  (CustomOrder.__lt__; the incoming operator is a
+   binary Operator: equal orders are decided by its associativity) *)
 Definition order_lt (o : opc) (top : sitem) : bool :=
-  match top with
-  | SBracket => false                                    (* CustomOrder(0,0,0): order differs, 10.. < 0 is false *)
-  | SOp p => if op_order o =? op_order p then left_prec o else op_order o <? op_order p
-  end.
+  if op_order o =? item_order top then left_prec o else op_order o <? item_order top.
 
+(* process_stack(is_consume_bracket, incoming): reduce the operators on top of the stack, down to
+   the first bracket or — when an operator is coming in — the first operator that binds less tightly *)
 Fixpoint process_stack (incoming : option opc) (consume : bool) (ops : list sitem) (nums : list num)
   : M (list sitem * list num) :=
   match ops with
   | [] => ret ([], nums)
   | SBracket :: ops' => ret (if consume then ops' else ops, nums)
-  | SOp o :: ops' =>
-      match nums with
-      | r :: l :: nums' =>
-          tell_if (match incoming with Some i => op_order o <? op_order i | None => false end)
-                  T_parse_pop_lower ;;;
-          process_stack incoming consume ops' (mk_expr o l r :: nums')
-      | _ => diag "Number stack is empty when trying to evaluate the expression"
-      end
+  | top :: ops' =>
+      if match incoming with Some i => negb (order_lt i top) | None => false end then ret (ops, nums)
+      else
+        match nums with
+        | r :: l :: nums' => process_stack incoming consume ops' (mk_expr (item_opc top) l r :: nums')
+        | _ => diag "Number stack is empty when trying to evaluate the expression"
+        end
   end.
 
 Fixpoint ett_loop (l : list ftok) (ops : list sitem) (nums : list num) : M (list sitem * list num) :=
@@ -145,12 +144,9 @@ Fixpoint ett_loop (l : list ftok) (ops : list sitem) (nums : list num) : M (list
       | FNum z => ett_loop rest ops (NConst z :: nums)
       | FVar s => ett_loop rest ops (NVar s :: nums)
       | FOp o =>
-          '(ops1, nums1) <- (match ops with
-                             | top :: _ => if order_lt o top then process_stack (Some o) false ops nums
-                                           else ret (ops, nums)
-                             | [] => ret (ops, nums)
-                             end) ;;
+          '(ops1, nums1) <- process_stack (Some o) false ops nums ;;
           ett_loop rest (SOp o :: ops1) nums1
+      | FNeg => ett_loop rest (SNegate :: ops) (NConst (-1) :: nums)     (* a prefix operator reduces nothing *)
       | FOpen => ett_loop rest (SBracket :: ops) nums
       | FClose => '(ops1, nums1) <- process_stack None true ops nums ;; ett_loop rest ops1 nums1
       | FBad => diag "Unrecognized expression token"
@@ -207,10 +203,13 @@ Definition push (o : oper) (st : tstate) : tstate := mkT (o :: t_ops st) (t_max 
 Definition push_n (n : Z) (o : oper) (st : tstate) : tstate :=
   mkT (repeat o (Z.to_nat n) ++ t_ops st) (t_max st) (t_free st) (t_out st).
 Definition set_out (i : nat) (st : tstate) : tstate := mkT (t_ops st) (t_max st) (t_free st) (Some i).
+Definition fresh_variable (st : tstate) : nat * tstate :=
+  (S (t_max st), mkT (t_ops st) (S (t_max st)) (t_free st) (t_out st)).
+(* new_variable(is_reusing) *)
 Definition new_variable (st : tstate) : nat * tstate :=
   match t_free st with
   | i :: f => (i, mkT (t_ops st) (t_max st) f (t_out st))
-  | [] => (S (t_max st), mkT (t_ops st) (S (t_max st)) [] (t_out st))
+  | [] => fresh_variable st
   end.
 (* bisect.insort(free, v, key=index): insort_right *)
 Fixpoint insort (i : nat) (l : list nat) : list nat :=
@@ -247,6 +246,14 @@ Definition pow_ops (v : num) (rv : num) (st : tstate) : M (num * tstate) :=
 Definition differs_from_output (out : score) (n : num) : bool :=
   match n with NVar s => negb (score_eqb s out) | _ => true end.
 
+(* fold_constants(left.content, node.content, right.content), None -> JMCSyntaxException *)
+Definition fold_node (content : opc) (a b : Z) : M Z :=
+  match fold_constants content a b with
+  | FVal v => ret v
+  | FNone => diag "Constant expression has no value"
+  | FFloat => unmodelled "negative exponent (float)"
+  end.
+
 Fixpoint tto (out : score) (can_inject : bool) (node : num) (first : bool) (st : tstate)
   : M (num * tstate) :=
   match node with
@@ -262,23 +269,19 @@ Fixpoint tto (out : score) (can_inject : bool) (node : num) (first : bool) (st :
       | _ =>
           match lv, rv with
           | NConst a, NConst b =>
-              (* eval_expr(left.content + node.content + right.content) *)
-              tell_if (negb (opc_eqb content oper)) T_sub_rewrite_fold ;;;
-              v <- py_eval2 a content b ;;
+              v <- fold_node content a b ;;
               if first then
                 let '(k, st3) := new_variable st2 in
                 ret (NConst v, push (NTemp k, PEmpty, NConst v) (set_out k st3))
               else ret (NConst v, st2)
           | _, _ =>
-              let '(k, st3) := new_variable st2 in
+              (* no copy: k is going to be renamed to the target, which is read here for the first
+                 time — k is a temporary that has never been written *)
+              let copy := negb can_inject || differs_from_output out lv in
+              let '(k, st3) := if copy then new_variable st2 else fresh_variable st2 in
               let st4 := if first then set_out k st3 else st3 in
               let st5 := free_if_temp rv st4 in
-              let copy := negb can_inject || differs_from_output out lv in
               let st6 := if copy then push (NTemp k, PEmpty, lv) st5 else st5 in
-              (* no copy: k is going to be renamed to the target, which is read here for the first
-                 time — wrong if k was taken from the free list (it has been written already) *)
-              tell_if (negb copy && match t_free st2 with [] => false | _ => true end)
-                      T_inject_reused_temp ;;;
               if opc_eqb content PPow then pow_ops (NTemp k) rv st6
               else ret (NTemp k, push (NTemp k, oper, rv) st6)
           end
@@ -334,20 +337,9 @@ Definition tree_to_operations (nm : names) (tree : num) (out : score) (form : op
       match t_out st with
       | None => crash "AssertionError"
       | Some ov =>
-          let ops := rev (t_ops st) in
-          (* can_inject_iop = output_operation != "" and operations[0][0] is output_variable
-             and operations[0][1].content == "" and operations[0][2].content != output.content *)
-          iop <- (if opc_eqb form PEmpty then ret false
-                  else match ops with
-                       | [] => crash "IndexError"
-                       | (NTemp k, PEmpty, n) :: _ => ret (Nat.eqb k ov && differs_from_output out n)
-                       | _ => ret false
-                       end) ;;
-          tell_if iop T_iop_inject ;;;
-          let ops1 := if iop then match ops with (v, _, n) :: r => (v, form, n) :: r | [] => [] end
-                      else ops in
-          let can_inject := can_inject0 || iop in
-          ops2 <- rename_ops nm out can_inject ov ops1 ;;
+          (* `output op= expression`: the value is computed into a temporary first, never injected *)
+          let can_inject := can_inject0 in
+          ops2 <- rename_ops nm out can_inject ov (rev (t_ops st)) ;;
           ret (ops2 ++ (if can_inject then []
                         else [(out, form, CVar (rename_temp nm out can_inject ov ov))]))
       end
